@@ -126,7 +126,7 @@ pub fn run(cfg: &RunCfg) -> Ctx {
     all.merge(par_cases(
         cfg,
         "reflect",
-        cfg.n(1000, 16 * 3000),
+        cfg.n(1000, 16 * 30_000),
         || tokio::runtime::Builder::new_current_thread().enable_all().build().expect("verif-harness-bug: rt"),
         |rt, rng, ctx, _| case(rt, rng, ctx),
     ));
